@@ -306,6 +306,10 @@ impl Gen {
         }
     }
 
+    pub fn set_id_offset(&mut self, off: u32) {
+        self.next_id = self.next_id.max(off);
+    }
+
     fn fresh(&mut self, prefix: &str) -> String {
         self.next_id += 1;
         format!("{prefix}q{}", self.next_id)
